@@ -205,6 +205,7 @@ func (c *Conn) Bootstrap(ctx context.Context) *capnp.Client {
 		c.questions[q.id] = nil
 		c.questionID.remove(uint32(q.id))
 		c.mu.Unlock()
+		bc.Release()
 		return capnp.ErrorClient(annotate(err).errorf("bootstrap"))
 	}
 	c.tasks.Add(1)
